@@ -248,14 +248,16 @@ def handlePull (trait : String) (n : Nat) (evs : List (Nat × List Nat)) (failAt
   | _ => none
 
 
-/-! ## the Pull pipeline: `pipe <trait> <n> <allowed> <retAfter> <steps>`
+/-! ## the Pull pipeline: `pipe <trait> <n> <allowed> <retAfter> <par|seq> <steps>`
+
+`par`: the members run side by side (All, Most, Any, Fast, Race); `seq`: one after the other (One).
 
 `steps`: `,`-separated `<op>=<observation>`; ops: `start` (nothing), `p<i>:<k>` (device `i` reports the value
 message number `k` stands for; `p<i>:x`: it fails), `ok` / `sf` (the subscriber's parked Send returns nil /
 an error), `cc` (the subscriber cancels).  After each op the model's internal steps are run to EVERY point
 of quiescence they can reach (`Pipe.settle`), and the set of states is cut down to those that look like
 the observation the harness made on the real goroutines at its point of quiescence:
-`<lanes>;<loop>;<forwarded>` - per device `i|s|e` (waiting / inside `server.Send` / returned) and the number
+`<lanes>;<loop>;<forwarded>` - per device `i|s|e` (waiting / inside `server.Send` / returned or not started) and the number
 of its Sends that returned nil; `run|send|ret` for `PullX`; the values the subscriber was sent.
 Answer: `ok left=<threads of the members not ended in the final state(s)>`, or
 `!unreachable step=<k> …` when no point of quiescence of the model looks like the observation. -/
@@ -309,15 +311,17 @@ def parsePipeStep? (val : Nat → V) (n : Nat) (s : String) : Option (Option (Pi
     pure (l, op, obs)
   | _ => none
 
-def handlePipe (trait : String) (n allowed retAfter : Nat) (steps : List String) : Option String :=
+def handlePipe (trait : String) (n allowed retAfter : Nat) (seq : Bool) (steps : List String) : Option String :=
   if retAfter > n then none else
   match trait with
   | "onoff" => do
     let st ← steps.mapM (parsePipeStep? onoffOf n)
-    pure (pipeSteps ⟨true, allowed, retAfter, onoffReduceChanges⟩ (fun v => (v.map showOnOff).getD "nil") [Pipe.Cfg.init n] 0 st)
+    pure (pipeSteps ⟨true, allowed, retAfter, onoffReduceChanges⟩ (fun v => (v.map showOnOff).getD "nil")
+      [if seq then Pipe.Cfg.initSeq n else Pipe.Cfg.init n] 0 st)
   | "light" => do
     let st ← steps.mapM (parsePipeStep? levelOf n)
-    pure (pipeSteps ⟨true, allowed, retAfter, lightReduceChanges⟩ (fun v => (v.map showRat).getD "nil") [Pipe.Cfg.init n] 0 st)
+    pure (pipeSteps ⟨true, allowed, retAfter, lightReduceChanges⟩ (fun v => (v.map showRat).getD "nil")
+      [if seq then Pipe.Cfg.initSeq n else Pipe.Cfg.init n] 0 st)
   | _ => none
 
 def isPerm (order : List Nat) (n : Nat) : Bool :=
@@ -356,12 +360,13 @@ def handle (toks : List String) : String :=
       if evs.any (fun ev => ev.1 ≥ n) then none
       handlePull trait n evs failAt
     r.getD "!bad-op"
-  | ["pipe", trait, n, allowed, retAfter, steps] =>
+  | ["pipe", trait, n, allowed, retAfter, start, steps] =>
     let r : Option String := do
       let n ← parseNat? n
       let allowed ← parseNat? allowed
       let retAfter ← parseNat? retAfter
-      handlePipe trait n allowed retAfter (steps.splitOn ",")
+      let seq ← if start = "seq" then some true else if start = "par" then some false else none
+      handlePipe trait n allowed retAfter seq (steps.splitOn ",")
     r.getD "!bad-op"
   | _ => "!bad-op"
 
